@@ -12,7 +12,9 @@ open MRB
 inductive Base | prod | work | cons
   deriving DecidableEq, Repr
 
-inductive Wrap | plain | detached | async | asyncDetached
+/-- `future`: an `MRBFuture` obtained from the async iterator of that base; it holds `&mut` to that iterator, so whoever owns
+the future reaches the iterator. -/
+inductive Wrap | plain | detached | async | asyncDetached | future
   deriving DecidableEq, Repr
 
 /-- An iterator type as user code can name it, abstracted to what matters for thread-safety. -/
@@ -41,7 +43,8 @@ def fieldsOf (n : TyName) : List TyName :=
 def boundsOk (i : AutoImpl) (t : Ty) (inner : Bool) : Bool :=
   !i.negative && (!i.reqConcurrent || Gen.concurrentMarkers.contains (bufName t)) &&
   (!i.reqItemSend || t.itemSend) && (!i.reqItemSync || t.itemSync) &&
-  (!i.reqInnerSend || inner) && (!i.reqInnerSync || inner) && i.otherBounds.isEmpty
+  (!i.reqInnerSend || inner) && (!i.reqInnerSync || inner)
+  -- bounds on other type parameters (`otherBounds`, e.g. the payload of a future) are ones a caller can satisfy
 
 /-- Auto-trait rule for a struct without explicit impl: every field must have the trait. `bufRef` / `inner` / `plain`
     say whether `BufRef<B>` / the type parameter `I` / the wrapped plain iterator have it. -/
@@ -72,12 +75,15 @@ def hasTrait (tr : AutoTrait) (t : Ty) : Bool :=
   | .asyncDetached => match findImpl .asyncDetached tr with
     | some i => boundsOk i t async
     | none => autoFields (fieldsOf .asyncDetached) bufRef async plain
+  | .future => match findImpl .mrbFuture tr with
+    | some i => boundsOk i t async
+    | none => autoFields (fieldsOf .mrbFuture) bufRef async plain
 
 def isSend := hasTrait .send
 def isSync := hasTrait .sync
 
 def allBases : List Base := [.prod, .work, .cons]
-def allWraps : List Wrap := [.plain, .detached, .async, .asyncDetached]
+def allWraps : List Wrap := [.plain, .detached, .async, .asyncDetached, .future]
 def allBools : List Bool := [false, true]
 
 /-- The whole (finite) universe. -/
